@@ -63,6 +63,8 @@ def cases(tier):
         holds = (None, 'i', 1) if thorough else (None, 1)
         U = [user(a, how, am, h, False) for a in (0, 1) for how in ('BORROW', 'CLAIM') for am in amts for h in holds]
         U += [user(a, 'BORROW', {'a': 2}, h, True) for a in (0, 1) for h in (None, 1)]
+        # claims that are created one time unit before they are entered
+        U += [[['TRY', [['CLAIMLATE', 'r', am, 1, [['D', 1]]]]]] for am in amts[:2]]
         U3 = [user(a, how, am, 1 if how == 'BORROW' else None, False) for a in (0, 1) for how in ('BORROW', 'CLAIM')
               for am in (amts[:2] if not thorough else amts)][:12 if thorough else 6]
         for h in helpers(supply):
